@@ -19,6 +19,7 @@ proof fn lemma_same_size<T, F: Fn(&[T]) -> usize>(f: F, v: Seq<T>, s: int, e: in
     assert(a@ == b@);
 }
 //@unit src/utils.rs fn find_subsequences_of_max_size_k
+#[verifier::loop_isolation(false)]
 pub fn find_subsequences_of_max_size_k<T, SeqSize>(
     values: &[T],
     k: usize,
